@@ -24,7 +24,7 @@ import (
 
 func init() {
 	register(&Rule{ID: "RX-3", Min: 4, Run: runRX3,
-		Doc: "the pattern of a regex type /P/ ends at the first unescaped slash: the loop of regex.(*Schema).doCompile over the bytes after the opening slash, read as a function of (its boolean loop-carried state, the current byte) and evaluated for every state and all 256 byte values on the SSA form, is the two-state automaton \"a backslash flips the escape state, any other byte clears it, a slash in the clear state ends the pattern\" started in the clear state, the text scanned is the file's Content() itself (so that Len, the pattern length + 2, is counted from the first byte of the file), and the pattern taken is the text between the opening slash and that slash"})
+		Doc: "the pattern of a regex type /P/ ends at the first unescaped slash: the loop of regex.(Schema).doCompile over the bytes after the opening slash, read as a function of (its boolean loop-carried state, the current byte) and evaluated for every state and all 256 byte values on the SSA form, is the two-state automaton \"a backslash flips the escape state, any other byte clears it, a slash in the clear state ends the pattern\" started in the clear state, the text scanned is the file's Content() itself (so that Len, the pattern length + 2, is counted from the first byte of the file), and the pattern taken is the text between the opening slash and that slash"})
 }
 
 type rx3Result struct {
